@@ -63,13 +63,16 @@ class SelProblem(object):
         return {'tree': self.tree, 'ref_genes': self.ref_genes,
                 'up': self.up, 'down': self.down, 'query': self.query,
                 'n_per': self.n_per, 'overrides': self.overrides,
-                'parent_list': self.parent_list, 'label': self.label}
+                'parent_list': self.parent_list, 'label': self.label,
+                'dtype_mode': getattr(self, 'dtype_mode', 'int64')}
 
     @classmethod
     def from_json(cls, d):
-        return cls(d['tree'], d['ref_genes'], d['up'], d['down'], d['query'],
-                   d['n_per'], d.get('overrides'), d.get('parent_list'),
-                   d.get('label', ''))
+        out = cls(d['tree'], d['ref_genes'], d['up'], d['down'], d['query'],
+                  d['n_per'], d.get('overrides'), d.get('parent_list'),
+                  d.get('label', ''))
+        out.dtype_mode = d.get('dtype_mode', 'int64')
+        return out
 
     # -- parents --
     def all_parents(self):
@@ -254,6 +257,7 @@ def gen_problem(rng, mode=None, max_leaves=7):
         q = rng.sample(q, rng.randint(1, min(3, n_genes)))
     prob = SelProblem(tree, names, up, down, q, n_per,
                       label='%s/%s' % (mode, qmode))
+    prob.dtype_mode = rng.choice(['int64', 'uint'])
     # per-parent overrides
     if rng.random() < 0.4:
         ps = prob.all_parents()
@@ -287,9 +291,19 @@ def _transpose(rows, n_rows, n_cols):
     return out
 
 
+def _uint_dtype(max_val):
+    """what cell_type_mapper.utils.utils.choose_int_dtype picks for (0, max)"""
+    for dt in (np.uint8, np.uint16, np.uint32):
+        if max_val < np.iinfo(dt).max:
+            return dt
+    return np.uint64
+
+
 def write_problem(prob, d, with_metadata=True):
     """writes stats.h5 (taxonomy only; selection reads nothing else from it)
-    and ref.h5 into directory d; returns (stats_path, ref_path)"""
+    and ref.h5 into directory d; returns (stats_path, ref_path).
+    prob.dtype_mode: 'int64' or 'uint' (smallest unsigned types, as
+    diff_exp/markers.py writes)"""
     n_g = len(prob.ref_genes)
     stats = pipeline.write_stats_file(
         d / 'stats.h5', prob.tree, prob.ref_genes,
@@ -311,14 +325,90 @@ def write_problem(prob, d, with_metadata=True):
         if with_metadata:
             f.create_dataset('metadata', data=json.dumps(
                 {'precomputed_path': str(stats)}).encode('utf-8'))
+        uint = getattr(prob, 'dtype_mode', 'int64') == 'uint'
         for nm, tab in (('up', prob.up), ('down', prob.down)):
             ip, ix = _csr(tab, n_pairs)
+            if uint:
+                ip = ip.astype(_uint_dtype(len(ix)))
+                ix = ix.astype(_uint_dtype(n_g))
             f.create_dataset('sparse_by_pair/%s_pair_idx' % nm, data=ip)
             f.create_dataset('sparse_by_pair/%s_gene_idx' % nm, data=ix)
             ip, ix = _csr(_transpose(tab, n_pairs, n_g), n_g)
+            if uint:
+                ip = ip.astype(_uint_dtype(len(ix)))
+                ix = ix.astype(_uint_dtype(max(n_pairs, 1)))
             f.create_dataset('sparse_by_gene/%s_gene_idx' % nm, data=ip)
             f.create_dataset('sparse_by_gene/%s_pair_idx' % nm, data=ix)
     return stats, ref
+
+
+def real_problem(rng):
+    """a problem whose reference-marker file is produced by the real
+    find_markers_for_all_taxonomy_pairs from generated statistics (exact
+    on-disk format: dtypes, chunking).  returns (prob, writer) where
+    writer(prob, d) re-creates stats.h5 / ref.h5 in d"""
+    from cell_type_mapper.diff_exp.markers import (
+        find_markers_for_all_taxonomy_pairs)
+    tree = small_tree(rng)
+    leaf_level = tree['hierarchy'][-1]
+    leaves = list(tree[leaf_level].keys())
+    n_g = rng.randint(5, 14)
+    names = ['g%d' % i for i in rng.sample(range(3 * n_g), n_g)]
+    nprng = np.random.default_rng(rng.randrange(2**31))
+    n_cells = {l: int(nprng.integers(8, 20)) for l in leaves}
+    p_hi = rng.choice([0.15, 0.3, 0.5])
+    hi = {l: nprng.random(n_g) < p_hi for l in leaves}
+    mean = {l: np.where(hi[l], 8.0, 0.2) for l in leaves}
+
+    def stats_writer(d):
+        return pipeline.write_stats_file(
+            d / 'stats.h5', tree, names,
+            {l: mean[l] * n_cells[l] for l in leaves}, n_cells,
+            {l: (mean[l] ** 2 + 0.05) * n_cells[l] for l in leaves},
+            {l: np.where(hi[l], n_cells[l], 1) for l in leaves},
+            {l: np.where(hi[l], n_cells[l], 0) for l in leaves},
+            {l: np.where(hi[l], n_cells[l], 0) for l in leaves})
+
+    def writer(prob, d):
+        stats = stats_writer(d)
+        tt = impl_tree(prob)
+        sub = d / 'fm_tmp'
+        sub.mkdir()
+        with silent():
+            find_markers_for_all_taxonomy_pairs(
+                precomputed_stats_path=stats, taxonomy_tree=tt,
+                output_path=d / 'ref.h5', n_processors=2, tmp_dir=str(sub),
+                max_gb=1)
+        import shutil
+        shutil.rmtree(sub, ignore_errors=True)
+        with h5py.File(d / 'ref.h5', 'a') as f:
+            f.create_dataset('metadata', data=json.dumps(
+                {'precomputed_path': str(stats)}).encode('utf-8'))
+        return stats, d / 'ref.h5'
+
+    shell = SelProblem(tree, names, [[] for _ in range(len(leaves) * (len(leaves) - 1) // 2)],
+                       [[] for _ in range(len(leaves) * (len(leaves) - 1) // 2)],
+                       names, 1)
+    with pipeline.workdir('c12_') as d:
+        _, ref = writer(shell, d)
+        with h5py.File(ref, 'r') as f:
+            gene_names = json.loads(f['gene_names'][()].decode('utf-8'))
+            p2i = json.loads(f['pair_to_idx'][()].decode('utf-8'))
+            tabs = {}
+            for nm in ('up', 'down'):
+                ip = f['sparse_by_pair/%s_pair_idx' % nm][()].astype(int)
+                ix = f['sparse_by_pair/%s_gene_idx' % nm][()].astype(int)
+                tabs[nm] = [sorted(int(x) for x in ix[ip[i]:ip[i + 1]])
+                            for i in range(len(ip) - 1)]
+    # the file's pair numbering must be the one SelProblem assumes
+    for (a, b), i in shell.pair_idx.items():
+        assert p2i[leaf_level][a][b] == i
+    q = list(gene_names)
+    rng.shuffle(q)
+    q = q[rng.randint(0, n_g // 3):] + ['x0']
+    prob = SelProblem(tree, gene_names, tabs['up'], tabs['down'], q,
+                      rng.choice([1, 2, 3]), label='real_find_markers')
+    return prob, writer
 
 
 # ---------------------------------------------------------------------------
